@@ -22,7 +22,7 @@ from odcsim import core  # noqa: E402  pylint: disable=wrong-import-position
 BUDGET = {
     "C06": {"quick": (240_000, 75, 500), "thorough": (4_000_000, 900, 5000)},
     "C13": {"quick": (2_400, 80, 300), "thorough": (40_000, 900, 2000)},
-    "C18": {"quick": (24_000, 75, 500), "thorough": (400_000, 900, 5000)},
+    "C18": {"quick": (16_000, 75, 500), "thorough": (400_000, 900, 5000)},
     "C05": {"quick": (2_000, 85, 150), "thorough": (24_000, 1200, 1000)},
     "C19": {"quick": (2_800, 85, 300), "thorough": (40_000, 1200, 2000)},
 }
